@@ -16,9 +16,15 @@ def run(ctx, rep, rid="R-C01-deadfield"):
                       "(hand-written code or a generated visit/fold)", floor=150, floor_what="fields of DSL structs built by the parser")
     # which DSL structs does the parser build (aggregates in the parser crate, or in DSL constructors it calls)
     built = set()
+    from rules.c08_trivia import Trivia
+    live = Trivia(ctx.peg).reachable("library")
+    GRAM = "ironplc_parser::parser::plc_parser::__parse_"
     for b in ctx.prog.bodies.values():
         if b.f["crate"] not in ("ironplc_parser", "ironplc_dsl") or "::test" in norm(b.id):
             continue
+        nb = norm(b.id)
+        if nb.startswith(GRAM) and nb[len(GRAM):].split("::")[0] not in live:
+            continue          # a grammar rule that `library` never reaches builds nothing
         if b.f.get("exp") and b.f["crate"] == "ironplc_dsl":
             continue
         for _, _, st in b.all_stmts():
